@@ -15,7 +15,7 @@ from core import *
 
 NEEDS = ["Paths", "PathsProofs", "Corr"]
 OPVARS = {"op": ["x", "k"], "oq": ["x", "z", "k"], "ou": ["u", "k"]}
-STATEVARS = {"op": {"x": 0}, "oq": {"x": 0, "z": 128}, "ou": {"u": 0}}     # rate = k + offset
+STATEVARS = {"op": {"x": 0}, "oq": {"x": 0, "z": 128}, "ou": {"u": 64}}     # rate = k + offset
 ZOFF = 128           # z' = k + 128 : the z rates never coincide with an x rate
 T_END, DT = 1.0, 0.125
 
@@ -26,7 +26,7 @@ def build(tree, name="net"):
     ops = {"op": OperatorTemplate(name="op", equations=["x' = k"], variables={"x": "output(0.0)", "k": 1.0}, path=None),
            "oq": OperatorTemplate(name="oq", equations=["x' = k", f"z' = k + {ZOFF}.0"],
                                   variables={"x": "output(0.0)", "z": "variable(0.0)", "k": 1.0}, path=None),
-           "ou": OperatorTemplate(name="ou", equations=["u' = k"], variables={"u": "output(0.0)", "k": 1.0}, path=None)}
+           "ou": OperatorTemplate(name="ou", equations=["u' = k + 64.0"], variables={"u": "output(0.0)", "k": 1.0}, path=None)}
     def circ(nm, c):
         if "nodes" in c:
             nodes = {n: NodeTemplate(name=n, path=None, operators={ops[o]: {"k": float(Fr(k))} for o in onames})
@@ -105,11 +105,19 @@ NNAMES = ["n0", "n1", "n2", "n3", "A", "B"]
 def gen_tree(rng, depth, run, kpool, uneven=False):
     if depth == 0:
         k = rng.randint(1, 4)
+        # run stream: sometimes 4-6 nodes of two structural classes that share an operator, in interleaved order
+        # (a wildcard over op/x then crosses vectorization groups back and forth)
+        inter = run and rng.random() < 0.35
+        if inter:
+            k = rng.randint(4, 6)
+            two = rng.choice([[["op"], ["op", "ou"]], [["oq"], ["oq", "ou"]], [["op"], ["ou", "op"]], [["op", "ou"], ["op"]]])
         names = rng.sample(NNAMES, k)
         nodes = []
-        for n in names:
-            if run:
-                ops = [rng.choice(["op", "op", "oq"])]
+        for j, n in enumerate(names):
+            if inter:
+                ops = list(two[j % 2] if rng.random() < 0.8 else rng.choice(two))
+            elif run:
+                ops = rng.choice([["op"], ["op"], ["oq"], ["op", "ou"], ["oq", "ou"]])
             else:
                 ops = rng.choice([["op"], ["oq"], ["op", "oq"], ["oq", "op"], []])
             nodes.append([n, ops, str(kpool.pop())])
@@ -206,7 +214,7 @@ def gen_run(rng, in_guard_only=False):
     while len(reqs) < nreq and tries < 60:
         tries += 1
         pat = gen_pattern(rng, tree)
-        op, var = rng.choice([("op", "x"), ("op", "x"), ("oq", "x"), ("oq", "z")])
+        op, var = rng.choice([("op", "x"), ("op", "x"), ("oq", "x"), ("oq", "z"), ("ou", "u")])
         den = py_denote(tree, pat, op, var)
         if not den and rng.random() < 0.9:
             continue
@@ -219,7 +227,7 @@ def gen_run(rng, in_guard_only=False):
     if not any(py_denote(tree, p.split("/")[:-2], *p.split("/")[-2:]) for _, p in reqs):
         lv = rng.choice(leaves(tree))
         o = lv[1][0]
-        reqs.append(["z", "/".join(list(lv[0]) + [o, "x"])])
+        reqs.append(["z", "/".join(list(lv[0]) + [o, "u" if o == "ou" else "x"])])
     return dict(kind="run", tree=tree, form=form, reqs=reqs, vectorize=rng.random() < 0.65)
 
 def run_variants(rng, case):
